@@ -3,10 +3,17 @@ import ShroudVerif.Model.StrHelpers
     Buffers are split as `pre ++ (mid ++ post)`; an offset is `pre.length`. -/
 namespace Shroud.Str
 
-@[simp] theorem Res.ok_bind {α β : Type} (a : α) (f : α → Res β) : (Res.ok a).bind f = f a := rfl
-@[simp] theorem Res.oob_bind {α β : Type} (f : α → Res β) : (Res.oob : Res α).bind f = .oob := rfl
-@[simp] theorem Res.map_ok {α β : Type} (a : α) (f : α → β) : (Res.ok a).map f = .ok (f a) := rfl
-@[simp] theorem Res.map_oob {α β : Type} (f : α → β) : (Res.oob : Res α).map f = .oob := rfl
+/- These four are deliberately NOT proved by `rfl`: a `rfl` simp lemma is applied by `dsimp`
+   top-down, which instantiates the continuation with the whole (large) interpreter state before
+   any projection is reduced and makes `simp` on `Model/StrStmts.lean` flows blow up. -/
+@[simp] theorem Res.ok_bind {α β : Type} (a : α) (f : α → Res β) : (Res.ok a).bind f = f a := by
+  cases h : f a <;> simp [Res.bind, h]
+@[simp] theorem Res.oob_bind {α β : Type} (f : α → Res β) : (Res.oob : Res α).bind f = .oob := by
+  simp [Res.bind]
+@[simp] theorem Res.map_ok {α β : Type} (a : α) (f : α → β) : (Res.ok a).map f = .ok (f a) := by
+  simp [Res.map]
+@[simp] theorem Res.map_oob {α β : Type} (f : α → β) : (Res.oob : Res α).map f = .oob := by
+  simp [Res.map]
 
 theorem rd_lt {b : Buf} {i : Nat} (h : i < b.length) : rd b i = .ok b[i] := by simp [rd, h]
 theorem rd_ge {b : Buf} {i : Nat} (h : b.length ≤ i) : rd b i = .oob := by
